@@ -36,6 +36,7 @@ type HarnessCfg struct {
 	ReverseMaps bool              `json:"reverse_maps"`
 	NoReplay    bool              `json:"no_replay"`
 	ReplayNote  string            `json:"replay_note"`
+	ReplayOptional bool           `json:"replay_optional"` // the native run cannot force all model choices (e.g. distribution samples): an unreproduced counterexample is still reported (solver-decided)
 	Assumptions []string          `json:"assumptions"`
 	Transform   string            `json:"transform"`
 	ExpectPanic bool              `json:"expect_panic"`
